@@ -36,6 +36,41 @@ def _names_after(names, s):
         return cur
     return names
 
+def _expr_tags(e, t, top=True):
+    k = e.get("t")
+    if k == "bin":
+        t.add("xop:" + e["op"]); _expr_tags(e["l"], t, False); _expr_tags(e["r"], t, False)
+    elif k == "un":
+        t.add("xop:un" + e["op"])
+        if e["op"] == "-" and (e["e"].get("t") == "un" and e["e"]["op"] == "-" or
+                               e["e"].get("t") == "lit" and e["e"]["v"]["k"] == "num" and e["e"]["v"]["n"] < 0):
+            t.add("neg-neg")
+        _expr_tags(e["e"], t, False)
+    elif k == "case":
+        t.add("xop:case")
+        for a in e["arms"]:
+            _expr_tags(a["c"], t, False); _expr_tags(a["v"], t, False)
+    elif k == "agg":
+        t.add("fn:" + e["f"]); _expr_tags(e["e"], t, False)
+    elif k == "in":
+        t.add("xop:in")
+        for x in ("e", "lo", "hi"):
+            _expr_tags(e[x], t, False)
+    elif k == "lit" and top:
+        t.add("lit-item")
+
+def _step_exprs(s):
+    op = s["op"]
+    if op in ("select", "derive", "aggregate"):
+        return [it["e"] for it in s["items"]]
+    if op == "filter":
+        return [s["e"]]
+    if op == "sort":
+        return [k["e"] for k in s["keys"]]
+    if op == "join" and s["on"].get("t") != "eqcol":
+        return [s["on"]]
+    return []
+
 def tags(prog):
     t = set()
     names = []
@@ -43,6 +78,18 @@ def tags(prog):
         for s in steps:
             op = s["op"]
             t.add("op:" + op)
+            if depth > 0:
+                t.add("inner:" + op)
+            for e in _step_exprs(s):
+                _expr_tags(e, t)
+            if op == "derive":
+                for it in s["items"]:
+                    if it["e"].get("t") == "col" and it["n"] and it["n"] != it["e"]["name"]:
+                        t.add("alias-derive")
+            if op == "aggregate":
+                for it in s["items"]:
+                    if it["e"].get("t") != "agg":
+                        t.add("agg-arith")
             if op == "take" and s["hi"] >= INF and s["lo"] > 1:
                 t.add("open-take")
             if op in ("derive", "select"):
@@ -70,6 +117,8 @@ def tags(prog):
         return names
     walk(prog["steps"], [], 0)
     ops = [s["op"] for s in prog["steps"]]
+    if "append" in ops[:-1]:
+        t.add("append-not-last")
     for i, o in enumerate(ops):
         for o2 in ops[i + 1:]:
             t.add(f"seq:{o}>{o2}")
